@@ -73,7 +73,16 @@ func ClearTextPassword(validate func(ctx context.Context, database, username, pa
 		}
 
 		if !valid {
-			return ctx, ErrorCode(writer, pgerror.WithCode(errors.New("invalid username/password"), codes.InvalidPassword))
+			// NOTE: the credentials have been rejected. The error is reported to
+			// the client and returned to the caller to make sure that the
+			// connection is closed and never reaches the authenticated phase.
+			err = pgerror.WithCode(errors.New("invalid username/password"), codes.InvalidPassword)
+			werr := writeErrorResponse(writer, err)
+			if werr != nil {
+				return ctx, werr
+			}
+
+			return ctx, err
 		}
 
 		return ctx, writeAuthType(writer, authOK)
